@@ -27,6 +27,9 @@ def gen_tensor(rng, i):
     elif k == 3:
         a = rng.choice([-1.0, 1.0])
         e, kind = [a, a, a], 'isotropic'
+        if rng.random() < 0.5:
+            # exactly isotropic six-vector (a rotated one has eigenvalues that differ in the last bits)
+            return np.array([a, a, a, 0.0, 0.0, 0.0]) / math.sqrt(3), 'isotropic'
     elif k == 4:
         a = rng.choice([-1.0, 1.0])
         eps = 10 ** rng.uniform(-7, -2)
